@@ -492,4 +492,5 @@ class RadialProfile(ProfileBase):
         """
         The raw data profile as a 1D `~numpy.ndarray`.
         """
-        return self._data_profile[1]
+        # include any normalization applied before this first access
+        return self._data_profile[1] / self.normalization_value
